@@ -426,3 +426,16 @@ class patched_clock:
         if self.old is not None:
             self.module.datetime = self.old
         return False
+
+
+# ---------------------------------------------------------------- heartbeat (which case is being evaluated)
+def heartbeat(case):
+    """Record the case about to be given to the implementation (file named by VERIF_HEARTBEAT, set by the supervising
+    parent of runner.py): if the implementation never returns, the parent reports this case as the failing input."""
+    path = os.environ.get("VERIF_HEARTBEAT")
+    if path:
+        try:
+            with open(path, "w") as f:
+                json.dump(case, f)
+        except OSError:
+            pass
